@@ -92,11 +92,105 @@ def judgeKX (fn : String) (ct ot : List String) : Option Verdict := do
   pure { model := render m, spec := Robust.verdict { cls := obsCls }, note := note,
          trivial := false }
 
+/-- the answers of the cipher, read off the observation -/
+def decLibOf (hdr bs : Nat) (obsOk : Bool) (plen : Nat) (after : Bytes) : DecLib :=
+  { aeadOpen := fun _ => if obsOk then some plen else none,
+    cbcDecrypt := fun p => if (after.drop (hdr + bs)).length = p.length then after.drop (hdr + bs) else p,
+    cbcLen := by intro b; split <;> simp_all,
+    macOk := obsOk }
+
+/-- record-protection cases -/
+def judgeRec (fn : String) (ct ot : List String) : Option Verdict := do
+  let stack ← kv ct "stack"
+  let dtls := stack == "dtlcp"
+  let hdr := if dtls then Facts.dtlcp.recordHeaderLen else Facts.tlcp.recordHeaderLen
+  let obsCls := (kv ot "out").getD "?"
+  if fn == "rec_pad" then
+    let payload ← kvHex ct "payload"
+    let m := match extractPadding payload with
+      | .ok (rem, good) => subst (subst (subst ot "out" "ok") "rem" (toString rem)) "good" (b01 good)
+      | .err _ => subst ot "out" "err"
+      | .panic => subst ot "out" "panic"
+    pure { model := render m, spec := Robust.verdict { cls := obsCls }, trivial := payload.isEmpty }
+  else if fn == "rec_dec" then
+    let rec_ ← kvHex ct "rec"
+    let su ← kv ct "suite"
+    let seqB ← kvHex ct "seq"
+    let seq := seqB.foldl (fun a b => a * 256 + b.toNat) 0
+    let after := (kvHex ot "after").getD []
+    let plen := ((kv ot "plen").bind String.toNat?).getD 0
+    let k : CipherKind := if su == "gcm" then .aead 8 16 else if su == "cbc" then .cbc 16 32 else .none
+    let lib := decLibOf hdr 16 (obsCls == "ok") plen after
+    let m := match decrypt dtls hdr k lib seq rec_ with
+      | .ok n => subst (subst ot "out" "ok") "plen" (toString n)
+      | .err _ => subst (subst ot "out" "err") "plen" "-"
+      | .panic => subst (subst ot "out" "panic") "plen" "-"
+    pure { model := render m, spec := Robust.verdict { cls := obsCls }, trivial := false }
+  else none
+
+/-- stream-stack loop cases -/
+def judgeFrames (ct ot : List String) : Option Verdict := do
+  let wire ← kvHex ct "wire"
+  let hv := (kv ct "hv").getD "0" == "1"
+  let segs := ((kv ct "seg").getD "0.0.1").splitOn "."
+  let (a, b, k) ← match segs.map String.toNat? with
+    | [some a, some b, some k] => some (a, b, k)
+    | _ => none
+  let ops := ((kv ct "ops").getD "").splitOn ","
+  let obsSteps := ((kv ot "steps").getD "").splitOn ","
+  let L := limitsT
+  let seg : Nat → Nat := fun m => 1 + ((a * m + b) % (if k = 0 then 1 else k))
+  let s0 : ParsersLoop.St := { ParsersLoop.St.init wire with haveVers := hv, vers := Facts.tlcp.VersionTLCP }
+  let rec go (s : ParsersLoop.St) (ops obs : List String) (accS accL : List String) (maxHand maxRaw : Nat) (panicked : Bool) :
+      List String × List String × Nat × Nat × Bool :=
+    match ops with
+    | [] => (accS.reverse, accL.reverse, maxHand, maxRaw, panicked)
+    | op :: rest =>
+      let o := obs.headD ""
+      let lib : ParsersLoop.Lib := { seg := seg, dec := fun _ _ => none, unmarshalOk := fun _ => o.startsWith "m" }
+      let (s1, res) : ParsersLoop.St × String :=
+        if op == "H" then
+          match ParsersLoop.readHandshake L lib s with
+          | (s1, .ok (t, n)) => (s1, s!"m{t.toNat}:{n}")
+          | (s1, .err _) => (s1, "err")
+          | (s1, .panic) => (s1, "panic")
+        else if op == "R" then
+          match ParsersLoop.readRecord L lib s false with
+          | (s1, .ok _) => (s1, "ok") | (s1, .err _) => (s1, "err") | (s1, .panic) => (s1, "panic")
+        else if op == "C" then
+          match ParsersLoop.readRecord L lib { s with nextCipher := true } true with
+          | (s1, .ok _) => (s1, "ok") | (s1, .err _) => (s1, "err") | (s1, .panic) => (s1, "panic")
+        else if op == "F" then ({ s with complete := true }, "ok")
+        else if op == "D" then
+          if s.complete then
+            match ParsersLoop.readApp L lib s with
+            | (s1, .ok n) => (s1, s!"d{n}") | (s1, .err _) => (s1, "err") | (s1, .panic) => (s1, "panic")
+          else (s, "skip")
+        else (s, "skip")
+      let l := s!"{s1.hand.length}.{s1.raw.length}.{s1.retry}.{s1.input}"
+      let mh := max maxHand s1.hand.length
+      let mr := max maxRaw s1.raw.length
+      if res == "panic" then ((res :: accS).reverse, (l :: accL).reverse, mh, mr, true)
+      else go s1 rest obs.tail (res :: accS) (l :: accL) mh mr panicked
+  let (ps, pl, _, _, _) := go s0 ops obsSteps [] [] 0 0 false
+  let m := subst (subst ot "steps" (",".intercalate ps)) "lens" (",".intercalate pl)
+  -- spec on the observation: classes and the largest buffer lengths the hook reported
+  let obsLens := ((kv ot "lens").getD "").splitOn ","
+  let nums := obsLens.map (fun e => (e.splitOn ".").map (fun x => x.toNat?.getD 0))
+  let oh := nums.foldl (fun a l => max a (l.headD 0)) 0
+  let or_ := nums.foldl (fun a l => max a ((l.drop 1).headD 0)) 0
+  let cls := if obsSteps.contains "panic" then "panic" else if obsSteps.contains "err" then "err" else "ok"
+  let stalled := obsSteps.contains "stall"
+  pure { model := render m, spec := Robust.verdict { cls := cls, stalled := stalled, hand := oh, raw := or_ },
+         trivial := !(obsSteps.any (fun x => x.startsWith "m" || x.startsWith "d" || x == "ok")) }
+
 def judge (c o : String) : Option Verdict := do
   let ct := tokens c
   let ot := tokens o
   let fn ← kv ct "fn"
   if fn.startsWith "ecc_" || fn.startsWith "dhe_" then judgeKX fn ct ot
+  else if fn.startsWith "rec_" then judgeRec fn ct ot
+  else if fn == "frames" then judgeFrames ct ot
   else none
 
 end Gotlcp.Oracle.C09
